@@ -28,7 +28,7 @@ ASSUMPTIONS = ["N_l = 0 with V_l > 0 counts as infinite variance; V_l = 0 contri
                "the boundary are not judged",
                "runs with worker processes: the samples are counted where they reach the statistics in the parent process"]
 REQUIRED_COUNTERS = ["allocation_checks", "bias_tolerance_measurements", "stopping_test_evaluations", "stopping_test_on_fewer-than-three_levels",
-                     "run_stopping_tests_rechecked", "runs_with_worker_processes", "stopping_tests_with_given_rates", "runs", "criteria_calls_observed", "allocation_calls_observed",
+                     "run_stopping_tests_rechecked", "runs_with_worker_processes", "stopping_tests_with_given_rates", "maximum_level_given_as_a_float", "runs", "criteria_calls_observed", "allocation_calls_observed",
                      "runs_stopped_by_criteria", "runs_stopped_at_maximum_level", "default_configuration_histories"]
 MIN_NONTRIVIAL = {"quick": 300, "thorough": 6000}
 SHARD_TIMEOUT = {"quick": 900, "thorough": 7200}
@@ -51,6 +51,11 @@ def gen_cases(tier, seed):
         cases.append({"kind": "run", "seed": int(rng.integers(2**31)), "profile": ["slow-decay", "geometric"][i % 2], "rmse_exp": float(rng.uniform(-1.2, -0.3)),
                       "L0": int(rng.choice([1, 2, 3])), "N0": int(rng.choice([20, 100])), "Lmax_extra": int(rng.integers(3, 8)), "beta": float(rng.uniform(0.2, 2 * al)),
                       "alpha": al, "rates_given": True, "scale": 1.0, "budget": 150_000})
+    # a maximum level computed from a formula (not a whole number, or a whole number held in a float)
+    for i in range(4 if tier == "quick" else 30):
+        cases.append({"kind": "run", "seed": int(rng.integers(2**31)), "profile": ["slow-decay", "plateau"][i % 2], "rmse_exp": float(rng.uniform(-1.6, -0.9)),
+                      "L0": int(rng.choice([1, 2])), "N0": 20, "Lmax_extra": int(rng.integers(1, 4)), "Lmax_frac": [0.5, 0.0, 0.25, 0.99][i % 4], "beta": float(rng.uniform(0.6, 1.0)),
+                      "alpha": float(rng.uniform(0.5, 0.7)), "rates_given": True, "scale": 1.0, "budget": 150_000})
     # a maximum level below the initial level: refused by the configuration, or honoured (no level above the maximum is ever simulated)
     for i in range(4 if tier == "quick" else 30):
         cases.append({"kind": "run", "seed": int(rng.integers(2**31)), "profile": "geometric", "rmse_exp": float(rng.uniform(-1.2, -0.4)),
@@ -249,6 +254,9 @@ def _run(case, R):
     rmse = case["scale"] * 10.0 ** case["rmse_exp"]
     L0, N0 = case["L0"], case["N0"]
     Lmax = L0 + case["Lmax_extra"]
+    if "Lmax_frac" in case:
+        Lmax = float(Lmax) + float(case["Lmax_frac"])
+        R.hit("maximum_level_given_as_a_float")
     rates = ConvergenceRates(alpha=case["alpha"], beta=case["beta"], gamma=1.0) if case["rates_given"] else ConvergenceRates()
     cp = ScriptedCoupling(profile, cost, rate=0.02, budget=case["budget"])
     workers = int(case.get("workers", 1))
@@ -353,7 +361,7 @@ def _run(case, R):
             R.violation("samples-simulated-after-the-last-bias-test", f"{total - last[3]} samples were simulated after the last stopping test", wit)
         if last[1]:
             R.hit("runs_stopped_by_criteria")
-        elif nlev - 1 == Lmax:
+        elif nlev - 1 == math.floor(Lmax):
             R.hit("runs_stopped_at_maximum_level")
         else:
             R.violation("returned-before-criteria-or-maximum-level", f"price() returned at L = {nlev - 1} < maximum_level = {Lmax} although the "
